@@ -1,6 +1,7 @@
 import TsVerif.C06.Model
 import TsVerif.C06.Cursor
 import TsVerif.C06.NodePort
+import TsVerif.C06.Sexp
 import TsVerif.C02.Judge
 import Std.Data.HashMap
 /-!
@@ -264,6 +265,13 @@ def judgeLine (c : Ctx) (root : Tree) (rootId : Nat) (r : Res) (line : String) :
           let r := { r with portCompared := r.portCompared + 1 }
           if port == answer then r
           else { r with corrFails := r.corrFails.add ("corr:" ++ op) fun _ => s!"{where_ ()}: api={answer} port={port}" }
+        else r
+      let r := if op == "sx" then
+          let info := (c.ft.node k).info
+          let port := hexOfString (nodeString c.lang info.raw info.alias)
+          let r := { r with portCompared := r.portCompared + 1 }
+          if port == answer then r
+          else { r with corrFails := r.corrFails.add "corr:sx" fun _ => s!"{where_ ()}: api={answer} port={port}" }
         else r
       if exp == answer then r
       else
